@@ -207,9 +207,17 @@ def validateFrames := validateFramesWith true
 /-- `uint64(x)` of a Go `int` -/
 def u64 (x : Int) : Nat := (x % 18446744073709551616).toNat
 
-/-- mux.go validate; `area` = the canvas-area check of commit 73510c8 is present -/
-def validateWith (area alphL : Bool) (s : MuxState) : R Unit :=
+/-- `container.MaxChunkPayload - container.RIFFHeaderSize` = 2^32 − 22: the largest frame data `validate` lets through -/
+def maxFrameData : Nat := 4294967286 - 12
+
+/-- mux.go validate.  Pins (all `true` = the current code): `limits` = the metadata-size and
+    frame-data-size checks of commits b6500d8 / faa5452, `area` = the canvas-area check of 73510c8,
+    `alphL` = the ALPH-before-VP8L check of dac085e. -/
+def validateWith (limits area alphL : Bool) (s : MuxState) : R Unit :=
   if s.frames.length = 0 then .err .noFrames
+  else if limits ∧ ((s.iccData.getD []).length > maxMetadataSize ∨ (s.exifData.getD []).length > maxMetadataSize ∨
+      (s.xmpData.getD []).length > maxMetadataSize) then .err .validation
+  else if limits ∧ (s.frames.any fun f => decide (f.data.length > maxFrameData)) = true then .err .validation
   else if isAnimated s ∧ s.frames.length < 1 then .err .validation
   else if ¬ isAnimated s ∧ s.frames.length ≠ 1 then .err .validation
   else
@@ -220,7 +228,7 @@ def validateWith (area alphL : Bool) (s : MuxState) : R Unit :=
       .err .validation
     else validateFramesWith alphL canvasW canvasH s.frames
 
-def validate := validateWith true true
+def validate := validateWith true true true
 
 /-- mux.go hasAlpha -/
 def hasAlpha (s : MuxState) : Bool :=
@@ -351,11 +359,12 @@ def assemble (s : MuxState) : R Bytes := do
   validate s
   if !needsVP8X s then assembleSimple s else assembleExtended s
 
-/-- `Assemble` as it was before the repairs 217045d / 73510c8 / dac085e (pinned variant, used only by
+/-- `Assemble` as it was at 9b3d913, before the repairs 217045d / 73510c8 / dac085e / b6500d8 / faa5452
+    (pinned variant, used only by
     the counterexample theorems of C14).  `assembleExtended` calls `isAnimated`, `canvasSize`, … but
     not `needsVP8X`/`validate`, so it is shared. -/
 def assemblePinned (s : MuxState) : R Bytes := do
-  validateWith false false s
+  validateWith false false false s
   if !needsVP8XPinned s then assembleSimple s else assembleExtended s
 
 end Webp.Impl.Mux
